@@ -80,6 +80,9 @@ func cmdRun(args []string) {
 	for _, r := range run.Results {
 		for _, o := range r.Oblig {
 			agg[o.Kind+" | "+o.Msg+" | "+o.Pos+" | "+o.Result]++
+			if o.Result == "unknown" {
+				fmt.Printf("  UNKNOWN %s %s choices=%v\n", o.Msg, o.Pos, o.Choices)
+			}
 			if o.Result == "VIOLATED" && *verbose {
 				fmt.Printf("  VIOLATED %s %s model=%v\n", o.Msg, o.Pos, o.Model)
 			}
